@@ -143,6 +143,17 @@ pub fn jobs(tier: Tier) -> Vec<Job> {
     if tier == Tier::Thorough {
         v.push(pipeline_job("c05-coord", &blocks::nonce_chain(spec, 2), &RunCfg::parallel(1), FOCUS_COORD_MIN2, 7, true));
     }
+    for c in [blocks::nonce_chain(spec, 2), blocks::independent(spec, 2), blocks::independent(spec, 3)] {
+        for w in [1usize, 2] {
+            let b = match (tier, w) {
+                (Tier::Quick, 1) => 4,
+                (Tier::Quick, _) => 3,
+                (Tier::Thorough, 1) => 5,
+                (Tier::Thorough, _) => 4,
+            };
+            v.push(pipeline_job("c05-sticky", &c, &RunCfg::parallel(w), STICKY_COORD, b, true));
+        }
+    }
     for c in &two {
         let run = RunCfg::parallel(2);
         v.push(pipeline_job("c05-live", c, &run, FINE, if tier == Tier::Quick { 2 } else { 3 }, true));
